@@ -8,7 +8,7 @@ from common import *
 
 
 def generic_trace_check(prop, tier, replay, *, mc, record, trace_module, controls, nontrivial, rule, samples_of,
-                        checker_cmd, trusted, assumptions, key_of=None, level="model_checking", mc_cases_to=None):
+                        checker_cmd, trusted, assumptions, key_of=None, level="model_checking", mc_cases_to=None, mc_soft=False):
     """mc: list of (module, cfg_quick, cfg_thorough, workers, simulate or None)
     record(wd, tier, cases_file, replay_payload) -> (trace_path, stats dict)
     controls: list of functions events -> (events, description) or None
@@ -20,13 +20,22 @@ def generic_trace_check(prop, tier, replay, *, mc, record, trace_module, control
     cases_file = os.path.join(wd, "cases.ndjson")
     payload = json.load(open(replay)) if replay else None
     allcases = []
+    soft = []
     if payload is None:
         for module, cq, ct, workers, sim in mc:
             cfg = cq if quick else ct
-            res = mc_ok(tlc(module, cfg, prop + "_" + module, workers=workers, simulate=sim, timeout=3000,
-                            extra=["-seed", str(seed())] if sim else None), cfg)
-            if res["violated"]:
-                raise ToolError("design-level invariant violated in %s: %s" % (cfg, res["violated"]))
+            res = tlc(module, cfg, prop + "_" + module, workers=workers, simulate=sim, timeout=3000,
+                      extra=["-seed", str(seed())] if sim else None)
+            if mc_soft and (res.get("error") or res["violated"]):
+                # the model is extracted from the source tree: a violated invariant predicts a violation of the
+                # code, which the conformance step below has to exhibit on the real implementation
+                soft.append("%s: %s %s" % (cfg, res["violated"], res.get("error") or ""))
+                res.setdefault("generated", 1)
+                res.setdefault("distinct", 1)
+            else:
+                mc_ok(res, cfg)
+                if res["violated"]:
+                    raise ToolError("design-level invariant violated in %s: %s" % (cfg, res["violated"]))
             R.add_mc(cfg, res)
             allcases += res["cases"]
         seen, uniq = set(), []
@@ -69,6 +78,8 @@ def generic_trace_check(prop, tier, replay, *, mc, record, trace_module, control
             R.cov["negative_controls"].append({"corruption": desc, "rejected": fired})
             if not fired:
                 raise ToolError("negative control did not fire: " + desc)
+    if soft and not R.violations:
+        raise ToolError("the model extracted from the source violates its invariants (%s) but no execution of the real code exhibits it" % soft)
     R.cov["distinct_nontrivial"] = len(nontrivial(events))
     R.cov["rule"] = rule
     R.cov["samples"] = samples_of(events)
@@ -248,7 +259,7 @@ def run_c05(tier, replay=None):
     def record(wd, tier, cases_file, payload):
         trace = os.path.join(wd, "trace.ndjson")
         st = vh(["locks", "--out", trace, "--rounds", "1" if quick else "6", "--threads", "16",
-                 "--max-projects", "6" if quick else "12", "--generated", "4" if quick else "30"], timeout=7200)
+                 "--max-projects", "6" if quick else "12", "--generated", "6" if quick else "30", "--scratch", wd], timeout=7200)
         return trace, st
 
     def ctl_digest(ev):
